@@ -90,6 +90,174 @@ def check_one(acc: core.Acc, s: str, multiline: bool, embed: bool) -> None:
                     return
 
 
+# ---------------------------------------------------------------------------------------------
+# the string embedded by the REAL writers of each format (every call site of escape_text), read back with the tokenizer
+# settings that format's reader uses
+
+def writer_sites():
+    """name -> (needs_single_line_name, fn(s) -> (text, options, expected token values that must appear in order))"""
+    import io as _io
+    import uuid as _uuid
+    from srctools.keyvalues import Keyvalues
+    from srctools.vmf import VMF, Output, Cordon, Vec
+    from srctools.bsp import BSP
+    from srctools import dmx
+    kvopts = dict(string_bracket=True, allow_escapes=True)
+    dflt = dict(allow_escapes=True)
+
+    def kv_leaf_name(s):
+        return Keyvalues(s, 'v').serialise(), kvopts, [s, 'v']
+
+    def kv_leaf_value(s):
+        return Keyvalues('k', s).serialise(), kvopts, ['k', s]
+
+    def kv_block_name(s):
+        return Keyvalues(s, [Keyvalues('in', '1')]).serialise(indent_braces=True, start_indent='\t'), kvopts, [s, 'in', '1']
+
+    def ent_text(ent):
+        buf = _io.StringIO()
+        ent.export(buf)
+        return buf.getvalue()
+
+    def vmf_key(s):
+        v = VMF()
+        e = v.create_ent('info_x')
+        e[s] = 'val'
+        return ent_text(e), kvopts, [s, 'val']
+
+    def vmf_value(s):
+        v = VMF()
+        e = v.create_ent('info_x', zkey=s)
+        return ent_text(e), kvopts, ['zkey', s]
+
+    def vmf_comments(s):
+        v = VMF()
+        e = v.create_ent('info_x')
+        e.comments = s or 'x'
+        return ent_text(e), kvopts, ['comments', s or 'x']
+
+    def vmf_fixup(s):
+        v = VMF()
+        e = v.create_ent('func_instance')
+        e.fixup['var'] = s
+        return ent_text(e), kvopts, ['replace01', '$var ' + s]
+
+    def vmf_material(s):
+        v = VMF()
+        p_ = v.make_prism(Vec(0, 0, 0), Vec(8, 8, 8), mat=s)
+        buf = _io.StringIO()
+        p_.top.export(buf)
+        return buf.getvalue(), kvopts, ['material', s]
+
+    def vmf_cordon(s):
+        v = VMF()
+        c = Cordon(v, Vec(0, 0, 0), Vec(1, 1, 1), True, s)
+        buf = _io.StringIO()
+        c.export(buf)
+        return buf.getvalue(), kvopts, ['name', s]
+
+    def vmf_visgroup(s):
+        v = VMF()
+        g = v.create_visgroup(s)
+        buf = _io.StringIO()
+        g.export(buf)
+        return buf.getvalue(), kvopts, ['name', s]
+
+    def out_fields(field, comma):
+        def fn(s):
+            kw = dict(out='OnX', targ='t', inp='In', param='p', inst_out=None, inst_in=None)
+            kw[field] = s if (s or field in ('param', 'targ')) else 'x'
+            val = kw[field]
+            o = Output(kw['out'], kw['targ'], kw['inp'], kw['param'], 0.5, times=2, inst_out=kw['inst_out'], inst_in=kw['inst_in'],
+                       comma_sep=comma)
+            sep = ',' if comma else '\x1b'
+            name = ('instance:' + kw['inst_out'] + ';' if kw['inst_out'] else '') + kw['out']
+            inp = ('instance:' + kw['inst_in'] + ';' if kw['inst_in'] else '') + kw['inp']
+            value = sep.join([kw['targ'], inp, kw['param'], '0.5', '2'])
+            return o.as_keyvalue(), kvopts, [name, value]
+        return fn
+
+    def bsp_key(s):
+        v = VMF()
+        e = v.create_ent('info_x')
+        e[s] = 'val'
+        text = BSP.write_ent_data(v, _show_dep=False).decode('ascii', 'surrogateescape').rstrip('\x00')
+        return text, dflt, [s, 'val']
+
+    def bsp_value(s):
+        v = VMF()
+        v.create_ent('info_x', zkey=s)
+        text = BSP.write_ent_data(v, _show_dep=False).decode('ascii', 'surrogateescape').rstrip('\x00')
+        return text, dflt, ['zkey', s]
+
+    def dmx_doc(where):
+        def fn(s):
+            uid = _uuid.UUID(int=7)
+            el = dmx.Element(s if where == 'elem_name' else 'elname', s if where == 'elem_type' else 'DmElement', uid)
+            if where == 'attr_name':
+                el[s or 'x'] = 'val'
+                want = [s or 'x', 'string', 'val']
+            elif where == 'attr_value':
+                el['attr'] = s
+                want = ['attr', 'string', s]
+            elif where == 'array_value':
+                el['arr'] = dmx.Attribute.array('arr', dmx.ValueType.STRING)
+                el['arr'].append(s)
+                want = ['arr', 'string_array', s]
+            elif where == 'elem_name':
+                want = ['name', 'string', s]
+            else:
+                want = [s]
+            buf = _io.BytesIO()
+            el.export_kv2(buf, unicode='silent')
+            text = buf.getvalue().decode('utf8')
+            text = text[text.index('-->') + 3:]
+            return text, dflt, want
+        return fn
+
+    sites = {
+        'kv.leaf_name': (True, kv_leaf_name), 'kv.leaf_value': (False, kv_leaf_value), 'kv.block_name': (True, kv_block_name),
+        'vmf.key': (True, vmf_key), 'vmf.value': (False, vmf_value), 'vmf.comments': (False, vmf_comments), 'vmf.fixup': (False, vmf_fixup),
+        'vmf.material': (False, vmf_material), 'vmf.cordon_name': (False, vmf_cordon), 'vmf.visgroup_name': (False, vmf_visgroup),
+        'bsp.key': (True, bsp_key), 'bsp.value': (False, bsp_value),
+        'dmx.attr_name': (True, dmx_doc('attr_name')), 'dmx.attr_value': (False, dmx_doc('attr_value')),
+        'dmx.array_value': (False, dmx_doc('array_value')), 'dmx.elem_name': (False, dmx_doc('elem_name')),
+        'dmx.elem_type': (True, dmx_doc('elem_type')),
+    }
+    for comma in (False, True):
+        for field in ('out', 'targ', 'inp', 'param', 'inst_out', 'inst_in'):
+            sites[f'output.{field}.{"comma" if comma else "esc"}'] = (field != 'param', out_fields(field, comma))
+    return sites
+
+
+_SITES: dict = {}
+
+
+def check_sites(acc: core.Acc, s: str) -> None:
+    if not _SITES:
+        _SITES.update(writer_sites())
+    for name, (single_line, fn) in _SITES.items():
+        if single_line and ('\n' in s or '\r' in s):
+            continue          # names are single-line by the format (readers reject line breaks in keys)
+        if name.startswith('output.') and ((',' in s and 'comma' in name) or '\x1b' in s or (';' in s and 'inst' in name)):
+            continue          # an output field cannot contain its own separator
+        if name.startswith('dmx.') and not s.isascii():
+            pass
+        acc.evaluations += 1
+        case = {'s': s, 'site': name}
+        try:
+            text, opts, want = fn(s)
+        except Exception as exc:  # noqa: BLE001
+            acc.fail('site_writer_raises', case, f'{name}: writing {s!r} raised {type(exc).__name__}: {exc}', site=name.split('.')[0])
+            continue
+        got = [v for t, v in toks(text, **opts) if t in ('STRING', 'ERR', 'EXC')]
+        # the expected values must appear consecutively
+        n = len(want)
+        if not any(got[i:i + n] == want for i in range(len(got) - n + 1)):
+            acc.fail('site_not_inverse', case, f'{name}: {s!r} written as {text[:300]!r}; string tokens read back {got[:12]!r}, expected to contain {want!r}',
+                     site=name)
+
+
 def shard(spec) -> core.Acc:
     acc = core.Acc()
     kind = spec[0]
@@ -101,6 +269,12 @@ def shard(spec) -> core.Acc:
             for m in (False, True):
                 check_one(acc, s, m, len(s) <= embed_upto)
         acc.sample({'s': prefix + SIGMA[1] * rest, 'multiline': True}, 1)
+    elif kind == 'sites':
+        _, prefix, length = spec
+        rest = length - len(prefix)
+        for tail in itertools.product(SIGMA, repeat=rest):
+            check_sites(acc, prefix + ''.join(tail))
+        acc.sample({'s': prefix + SIGMA[1] * rest, 'sites': 'all writer call sites'}, 1)
     elif kind == 'uni':
         _, lo, hi, contexts = spec
         for cp in range(lo, hi):
@@ -124,6 +298,13 @@ def run(ctx: core.Ctx) -> None:
         else:
             for c in itertools.product(SIGMA, repeat=2 if n <= 5 else 3):
                 shards.append(('str', ''.join(c), n, E))
+    SL = ctx.pick(2, 3)
+    for n in range(0, SL + 1):
+        if n <= 1:
+            shards.append(('sites', '', n))
+        else:
+            for c in (itertools.product(SIGMA, repeat=1) if n == 2 else itertools.product(SIGMA, repeat=2)):
+                shards.append(('sites', ''.join(c), n))
     step = 0x1000
     for lo in range(0, 0x110000, step):
         shards.append(('uni', lo, lo + step, (lo < 0x10000) or not ctx.quick))
@@ -131,11 +312,18 @@ def run(ctx: core.Ctx) -> None:
     core.par_map(shard, shards[k:] + shards[:k], ctx.acc)
     ctx.rule = (f'every string of length <= {L} over the {len(SIGMA)}-character escape alphabet x multiline in (False, True); '
                 f'every Unicode scalar value alone ({"and in 4 contexts for the BMP" if ctx.quick else "and in 4 contexts"}); '
-                f'strings of length <= {E} additionally embedded first/middle/last in a line under both reader option sets. '
+                f'strings of length <= {E} additionally embedded first/middle/last in a line under both reader option sets; strings of length '
+                f'<= {SL} written by the REAL writers at every call site of escape_text (Keyvalues names/values/block names, VMF keys, values, '
+                f'comments, fixups, materials, cordon and visgroup names, every Output field with both separators incl. instance names, '
+                f'BSP entity-lump keys and values, DMX KV2 attribute names, values, array items, element names and types) and read back '
+                f'with that reader\'s tokenizer settings. '
                 f'Non-trivial = escape_text changes the string. Each (string, mode) pair is enumerated once.')
 
 
 def replay(case: dict) -> list:
     acc = core.Acc()
+    if 'site' in case:
+        check_sites(acc, case['s'])
+        return [f for f in acc.all_failures() if f.case.get('site') == case['site']]
     check_one(acc, case['s'], case['multiline'], True)
     return acc.all_failures()
